@@ -435,3 +435,99 @@ def for_body_exit(S, outcome):
 
 
 c.exit_hook = for_body_exit
+
+
+# ------------------------------------------------------------------------------------ Server.close / Server.__init__
+from pyvc.models_aio import ListenerModel, PortPool  # noqa: E402
+
+
+def setup_close(u):
+    it = u.it
+    sess = Session(u, mode="SEQ", ports=False)
+    srv = sess.server
+    listener = ListenerModel(fresh("int", "port"), tag="control-listener")
+    srv.fields["server"] = listener
+    k = u.choose(3, "live-sessions")
+    conns = {}
+    disp = []
+    for j in range(k):
+        c2 = ConnModel(sess)
+        t = TaskModel(None, tag=f"dispatcher{j}")
+        c2.set_done("_dispatcher", t)
+        conns[Opaque(f"stream{j}")] = c2
+        disp.append(t)
+    srv.fields["connections"] = conns
+    return it.getattr_(srv, "close"), [], {}, {"self": srv, "listener": listener, "dispatchers": disp}
+
+
+c = contract(SERVER, "Server.close", props=["C12"])
+c.setup = setup_close
+c.raises_("CancelledError")
+c.assumptions.append("B-sessions: 0..2 live sessions in the connection table (the loop over the table is unrolled)")
+
+
+def close_post(S):
+    it = S.it
+    ev = it.ctx.events
+    cancelled = {e[1] for e in ev if e[0] == "task.cancel"}
+    awaited = it.ctx.ghost.get("awaited_tasks", [])
+    d = S.vars["dispatchers"]
+    wc = [t for t in awaited if getattr(getattr(t, "coro", None), "name", "") == "wait_closed"]
+    return bool(S.vars["listener"].closed and all(t in cancelled for t in d) and all(t in awaited for t in d) and len(wc) == 1)
+
+
+c.ensures(close_post, "closes-the-listener-cancels-and-awaits-every-session-dispatcher")
+
+
+def setup_init(u):
+    it = u.it
+    mod = it.modules[SERVER]
+    n = u.choose(4, "number-of-data-ports")  # 0..2 ports, or None (unrestricted)
+    ports = None if n == 3 else [fresh("int", f"port{i}") for i in range(n)]
+    for p in ports or []:
+        u.assume(z3.And(p.t > 0, p.t < 65536))
+    maxc = fresh("int", "maximum_connections")
+    u.assume(maxc.t >= 0)
+    kwargs = {"data_ports": ports, "maximum_connections": maxc, "path_io_factory": Opaque("factory")}
+
+    def run(i, a, k):
+        return i.call(mod.attrs["Server"], [], kwargs)
+
+    return Builtin("Server(...)", run), [], {}, {"ports": ports, "maxc": maxc}
+
+
+c = contract(SERVER, "Server.__init__", props=["C11", "C10", "C15"])
+c.setup = setup_init
+c.raises = {}
+c.assumptions.append("B-ports: data_ports lists of 0..2 ports (or None); the construction loop is unrolled")
+
+
+def init_post(S):
+    it = S.it
+    srv = S.result
+    ports = S.vars["ports"]
+    pool = srv.fields["available_data_ports"]
+    conj = []
+    if ports is None:
+        ok_pool = pool is None
+    else:
+        ok_pool = isinstance(pool, PortPool)
+        if ok_pool:
+            want = z3.K(z3.IntSort(), z3.IntVal(0))
+            for p in ports:
+                want = z3.Store(want, p.t, want[p.t] + 1)
+            conj.append(pool.cnt == want)
+            conj.append(pool.size == len(ports))
+    ac = srv.fields["available_connections"]
+    conj.append(it.eq_term(ac.fields["value"], S.vars["maxc"]))
+    conj.append(it.eq_term(ac.fields["maximum_value"], S.vars["maxc"]))
+    th, tpc = srv.fields["throttle"], srv.fields["throttle_per_connection"]
+    distinct = th is not tpc and th.fields["read"] is not th.fields["write"] and th.fields["read"] is not tpc.fields["read"]
+    table = srv.fields["commands_mapping"]
+    verbs_ok = sorted(table) == sorted(["abor", "appe", "cdup", "cwd", "dele", "epsv", "list", "mkd", "mlsd", "mlst", "pass", "pasv", "pbsz", "prot", "pwd", "quit", "rest", "retr", "rmd", "rnfr", "rnto", "stor", "syst", "type", "user"])
+    bound = all(getattr(v, "obj", None) is srv for v in table.values())
+    conj = [z3.BoolVal(x) if isinstance(x, bool) else x for x in conj]
+    return z3.And(z3.BoolVal(bool(ok_pool and distinct and verbs_ok and bound and not srv.fields["throttle_per_user"])), *conj)
+
+
+c.ensures(init_post, "pool-holds-exactly-the-configured-ports-counters-full-throttles-distinct-25-verbs-bound-to-this-server")
